@@ -395,9 +395,9 @@ def apply_step(step, schemas, funcs):
                 if v["k"] == "camel":
                     v["table"] = camel_table(cur)
                 cur = make_visitor(v, funcs).on_schema(cur)
-            if cur is not c:
-                return None, "internal:NotInPlace"
-            c.validate()
+                if cur is not c:
+                    return None, "internal:NotInPlace"
+                c.validate()      # an invalid intermediate schema (e.g. the query type hidden) is a rejected step
             return c, "ok"
         if step["op"] == "extend":
             step["sdl"] = ext_sdl(step["ext"], src)
@@ -763,8 +763,10 @@ def one_sequence(ctx, seed_note, size, n_steps, steps=None, build_seed=None):
             closed_check("after using the result")
             if not isinstance(rq, dict):
                 fail("result-unusable:query:%s" % step["op"], "coverage query on the result raised %s" % rq)
-            elif rq.get("errors") and isinstance(base_q, dict) and not base_q.get("errors"):
-                fail("result-unusable:query-errors:%s" % step["op"], "coverage query (fragments on every possible type) on the result reports %s" % rq["errors"][:2])
+            elif [m for m in rq.get("errors", []) if not m.endswith("is not nullable")] and isinstance(base_q, dict) and not base_q.get("errors"):
+                # ("is not nullable" = the harness' resolver has no possible object left for an abstract type: not a defect)
+                fail("result-unusable:query-errors:%s" % step["op"], "coverage query (fragments on every possible type) on the result reports %s"
+                     % [m for m in rq["errors"] if not m.endswith("is not nullable")][:2])
             elif step["op"] in ("clone",) and rq != base_q:
                 fail("result-differs:query:clone", "a clone answers the coverage query differently from its source")
             key = (step["op"], json.dumps(step.get("visitors", step.get("ext", step.get("entries"))), sort_keys=True)[:400],
